@@ -609,3 +609,177 @@ func ruleLockOrder(p *Prog, r *Out) {
 		r.bad("lock order edges", "?", "no 'held while acquiring' pair found: the lock-state analysis has lost its anchors")
 	}
 }
+
+// ---------------------------------------------------------------- blocking under a request's lock
+
+func init() {
+	register(&Rule{
+		Name: "no-blocking-under-ctx-lock", Props: []string{"C12"}, Engine: "OWN", Floor: 2,
+		Doc: "while a connection goroutine holds a request's Ctx (acquire/acquireFor .. release) it performs no operation whose completion depends on the peer: no blocking channel send or select without default, no socket write or flush. RoundTrip takes the same mutex, without a bound, before it can return (takeBack), so anything the peer can stall under that mutex stalls the caller past its configured timeout",
+		Run: ruleNoBlockingUnderCtx,
+	})
+}
+
+func ruleNoBlockingUnderCtx(p *Prog, r *Out) {
+	// which functions may block on the peer, and through what
+	why := map[*ssa.Function]string{}
+	callees := map[*ssa.Function][]*ssa.Function{}
+	var fns []*ssa.Function
+	for _, f := range p.allFuncs() {
+		if f.Blocks == nil {
+			continue
+		}
+		fns = append(fns, f)
+		for _, b := range f.Blocks {
+			for _, x := range b.Instrs {
+				switch v := x.(type) {
+				case *ssa.Send:
+					if why[f] == "" {
+						why[f] = "channel send at " + p.ipos(x)
+					}
+				case *ssa.Select:
+					if v.Blocking && why[f] == "" {
+						hasSend := false
+						for _, st := range v.States {
+							if st.Dir == types.SendOnly {
+								hasSend = true
+							}
+						}
+						if hasSend {
+							why[f] = "select with a send and no default at " + p.ipos(x)
+						}
+					}
+				case ssa.CallInstruction:
+					if _, isGo := x.(*ssa.Go); isGo {
+						continue
+					}
+					if _, isDefer := x.(*ssa.Defer); isDefer {
+						continue
+					}
+					name := p.calleeName(v.Common())
+					switch name {
+					case "(*bufio.Writer).Flush", "(*FrameHeader).WriteTo":
+						if why[f] == "" {
+							why[f] = "socket write (" + name + ") at " + p.ipos(x)
+						}
+					}
+					if v.Common().IsInvoke() {
+						callees[f] = append(callees[f], p.implementersOf(v.Common())...)
+					} else {
+						callees[f] = append(callees[f], p.calleesOf(v)...)
+					}
+				}
+			}
+		}
+	}
+	for changed := true; changed; {
+		changed = false
+		for _, f := range fns {
+			if why[f] != "" {
+				continue
+			}
+			for _, g := range callees[f] {
+				if why[g] != "" {
+					why[f] = p.fname(g) + " -> " + why[g]
+					if len(why[f]) > 400 {
+						why[f] = why[f][:400]
+					}
+					changed = true
+					break
+				}
+			}
+		}
+	}
+	sites := 0
+	seen := map[string]bool{}
+	for _, f := range fns {
+		for _, b := range f.Blocks {
+			for _, x := range b.Instrs {
+				ci, ok := x.(ssa.CallInstruction)
+				if !ok {
+					continue
+				}
+				if _, isGo := x.(*ssa.Go); isGo {
+					continue
+				}
+				if _, isDefer := x.(*ssa.Defer); isDefer {
+					continue
+				}
+				if !p.locksHeldAt(x)["Ctx.lck"] {
+					continue
+				}
+				cands := p.calleesOf(ci)
+				if ci.Common().IsInvoke() {
+					cands = p.implementersOf(ci.Common())
+				}
+				name := p.calleeName(ci.Common())
+				direct := name == "(*bufio.Writer).Flush" || name == "(*FrameHeader).WriteTo"
+				for _, g := range cands {
+					if g.Blocks == nil {
+						continue
+					}
+					sites++
+					key := fmt.Sprintf("%s calls %s holding Ctx.lck", p.fname(f), p.fname(g))
+					if seen[key] {
+						continue
+					}
+					seen[key] = true
+					r.check(why[g] == "", key, p.ipos(x), "callee cannot be stalled by the peer",
+						fmt.Sprintf("%s calls %s while it holds the request's Ctx, and that call can wait on the peer (%s): a server that stops reading (the write loop sticks in Flush and the outgoing queue fills) parks this goroutine with the Ctx locked, and the RoundTrip of that request, which must take the same mutex before it returns, hangs past MaxResponseTime", p.fname(f), p.fname(g), why[g]))
+				}
+				if direct {
+					sites++
+					key := fmt.Sprintf("%s writes to the socket holding Ctx.lck", p.fname(f))
+					if !seen[key] {
+						seen[key] = true
+						r.bad(key, p.ipos(x), fmt.Sprintf("%s calls %s while it holds the request's Ctx: a server that stops reading blocks the write with the Ctx locked, and the RoundTrip of that request, which must take the same mutex before it returns, hangs past MaxResponseTime", p.fname(f), name))
+					}
+				}
+			}
+		}
+	}
+	if sites == 0 {
+		r.bad("calls under Ctx.lck", "?", "no call made while a Ctx is held was found: the lock-state analysis has lost its anchors")
+	}
+	// Close must not queue behind a mutex that is held across socket writes
+	ioLocks := map[string]string{}
+	for _, f := range fns {
+		for _, b := range f.Blocks {
+			for _, x := range b.Instrs {
+				ci, ok := x.(ssa.CallInstruction)
+				if !ok {
+					continue
+				}
+				name := p.calleeName(ci.Common())
+				if name != "(*bufio.Writer).Flush" && name != "(*FrameHeader).WriteTo" {
+					continue
+				}
+				for l := range p.locksHeldAt(x) {
+					if l != "Ctx.lck" {
+						if _, ok := ioLocks[l]; !ok {
+							ioLocks[l] = p.fname(f) + " at " + p.ipos(x)
+						}
+					}
+				}
+			}
+		}
+	}
+	if cf := p.ssaFunc("(*Conn).Close"); cf != nil {
+		waits := ""
+		for _, b := range cf.Blocks {
+			for _, x := range b.Instrs {
+				ci, ok := x.(ssa.CallInstruction)
+				if !ok || p.calleeName(ci.Common()) != "(*sync.Mutex).Lock" || len(ci.Common().Args) != 1 {
+					continue
+				}
+				if mfa, ok := ci.Common().Args[0].(*ssa.FieldAddr); ok {
+					mo, mf := p.fieldAddrName(mfa)
+					if w, ok := ioLocks[mo+"."+mf]; ok {
+						waits = mo + "." + mf + " (held across a socket write in " + w + ")"
+					}
+				}
+			}
+		}
+		r.check(waits == "", "(*Conn).Close does not queue behind a socket write", p.pos(cf.Pos()), "Close takes no mutex that is held across a write to the peer", "(*Conn).Close takes "+waits+" before it closes the socket: when the peer has stopped reading, the write loop sits in that write with the mutex held, Close waits for it, and nothing ever closes the socket that would make the write fail; Client.Close hangs with it")
+	}
+}
